@@ -649,3 +649,452 @@ def camp_c08(rnd, tier):
     b.mut(o, "set_bits", a=[2, 2], w=[0])
     b.meta(o)
     return b
+
+
+# ------------------------------------------------------------------ C12 iterators
+
+
+def words(alphabet, maxlen):
+    out = []
+    for L in range(0, maxlen + 1):
+        for w in itertools.product(alphabet, repeat=L):
+            out.append("".join(w))
+    return out
+
+
+def camp_c12(rnd, tier):
+    b = Beh()
+    maxn = 3 if tier == "quick" else 4
+    extra = 2 if tier == "quick" else 3
+    kinds = rotate(TREE_KINDS, rnd)
+    types = rotate(UTYPES, rnd)
+    # double-ended iterators of the trees: every call word over {next, next_back, len}
+    for n in range(0, maxn + 1):
+        ks = TREE_KINDS if tier == "thorough" or n <= 2 else [next(kinds) for _ in range(4)]
+        for kind in ks:
+            ty = next(types)
+            vals = rand_seq(rnd, n, [0, 1, 2, min(tmax(ty), 300), 7])
+            s = Seqn.from_values(vals)
+            b.reset()
+            o = b.newt(kind, ty, "from_vec", s)
+            ws = words("nbl", n + extra)
+            # only maximal words are needed: a history is a prefix of a longer one
+            ws = [w for w in ws if len(w) == n + extra]
+            for w in ws:
+                b.ith(o, rnd.choice(["iter", "iter", "ref_into_iter"]), w)
+            for w in rnd.sample(ws, min(len(ws), 30)):
+                b.ith(o, "into_iter", w, keep=1)
+    # longer sequences, random histories
+    for kind in TREE_KINDS:
+        ty = next(types)
+        n = rnd.choice([17, 64, 300])
+        s = Seqn.from_values(rand_seq(rnd, n, list(range(min(tmax(ty), 40) + 1))))
+        b.reset()
+        o = b.newt(kind, ty, "collect", s)
+        for _ in range(4):
+            w = "".join(rnd.choice("nnbbl") for _ in range(n + rnd.choice([0, 5, 40])))
+            b.ith(o, rnd.choice(["iter", "into_iter"]), w, keep=1)
+        b.ith(o, "iter", "n" * (n + 3) + "l" + "b" + "l")
+        b.ith(o, "iter", "b" * (n + 3) + "l" + "n" + "l")
+        b.ith(o, "into_iter", "n" * (n + 2), keep=0)
+    # forward iterators of bit vectors (with len), quad vectors, position iterators, DArray
+    for n in list(range(0, maxn + 1)) + [63, 64, 65, 130]:
+        bits = rand_seq(rnd, n, [0, 1])
+        s = Seqn.from_values(bits)
+        b.reset()
+        bv = b.newb("BV", "bools", s)
+        bvm = b.newb("BVM", "bools", s)
+        da = b.newb("DA1", "new", s)
+        ws = [w for w in words("nl", min(n, 4) + extra) if len(w) == min(n, 4) + extra] if n <= 4 else \
+             ["".join(rnd.choice("nnl") for _ in range(n + 6)) for _ in range(6)] + ["n" * (n + 3) + "lnl"]
+        for w in ws:
+            b.ith(bv, "iter", w)
+            b.ith(bvm, "iter", w)
+            b.ith(bv, "into_iter", w, keep=1)
+            b.ith(bvm, "into_iter", w, keep=1)
+            b.ith(da, "iter", w)
+        for o in (bv, bvm, da):
+            for m in ("ones", "zeros"):
+                b.ith(o, m, "n" * (n + 3))
+            for p in sorted(set([0, 1, n // 2, n - 1, n, n + 1, n + 70, -1])):
+                if p >= -1:
+                    b.ith(o, "ones_with_pos", "n" * (n + 3), pos=p)
+                    b.ith(o, "zeros_with_pos", "n" * (n + 3), pos=p)
+        quads = rand_seq(rnd, n, [0, 1, 2, 3])
+        sq = Seqn.from_values(quads)
+        for kind in ("QV", "RSQ256", "RSQ512"):
+            q = b.newq(kind, "u8", "collect", sq)
+            b.ith(q, "iter", "n" * (n + 4))
+            b.ith(q, "ref_into_iter", "n" * (n + 4))
+            b.ith(q, "into_iter", "n" * (n + 4), keep=1)
+    return b
+
+
+# ------------------------------------------------------------------ C13 quad vector and builder
+
+
+def int_values(rnd, ty, k):
+    signed = ty.startswith("i")
+    bits = {"i8": 8, "i16": 16, "i32": 32, "i64": 64, "isize": 64, "i128": 128}.get(ty) or TY_BITS[ty]
+    lo = -(1 << (bits - 1)) if signed else 0
+    hi = (1 << (bits - 1)) - 1 if signed else (1 << bits) - 1
+    special = [0, 1, 2, 3, 4, 5, 6, 7, hi, hi - 1, hi - 2, hi - 3, lo, lo + 1, lo + 2, lo + 3, hi // 2, hi // 3]
+    if signed:
+        special += [-1, -2, -3, -4, -5, -6, -7, -8]
+    out = []
+    for _ in range(k):
+        if rnd.random() < 0.5:
+            out.append(rnd.choice(special))
+        else:
+            out.append(rnd.randrange(lo, hi + 1))
+    return [min(hi, max(lo, v)) for v in out]
+
+
+def qv_observe(b, o, n, rnd):
+    b.meta(o)
+    pos = position_args(n, rnd=rnd, k=10, huge=(-1, -2))
+    if n <= 300:
+        pos = clip_args(list(range(0, n + 3)) + [-1, -2])
+    b.qg(o, "get", [], pos)
+    b.ith(o, "iter", "n" * min(n + 3, 600))
+    b.ith(o, "into_iter", "n" * min(n + 3, 600), keep=1)
+
+
+def camp_c13(rnd, tier):
+    b = Beh()
+    all_types = UTYPES + ITYPES
+    lens = [0, 1, 2, 127, 128, 129, 255, 256, 257, 511, 512, 513, 700]
+    # collecting from every integer type
+    for ty in all_types:
+        for n in (lens if tier == "thorough" else rnd.sample(lens, 4)):
+            vals = int_values(rnd, ty, n)
+            s = Seqn.from_values(vals)
+            b.reset()
+            o = b.newq("QV", ty, "collect", s)
+            qv_observe(b, o, n, rnd)
+            qb = b.newq("QB", ty, "collect", s)
+            o2 = b.conv(qb, "qbuild", keep=0)
+            qv_observe(b, o2, n, rnd)
+            b.eq(o, o2)
+    # push / extend histories
+    nh = 25 if tier == "quick" else 150
+    for _ in range(nh):
+        b.reset()
+        start = rnd.choice(["qb_new", "default", "qb_with_capacity"])
+        qb = b.newq("QB", "u8", start, Seqn.from_values([0] * rnd.choice([0, 1, 300])))
+        n = 0
+        for _ in range(rnd.choice([1, 3, 6])):
+            if rnd.random() < 0.5:
+                for _ in range(rnd.choice([1, 2, 127, 128, 129, 256])):
+                    b.mut(qb, "qpush", a=[rnd.choice([0, 1, 2, 3, 4, 7, 255, rnd.randrange(256)])])
+                    n += 1
+            else:
+                ty = rnd.choice(all_types)
+                vals = int_values(rnd, ty, rnd.choice([0, 1, 5, 128, 255, 257]))
+                b.mut(qb, "qextend", ty=ty, vals=[sym(v) for v in vals])
+                n += len(vals)
+            if rnd.random() < 0.4:
+                qv = b.conv(qb, "qbuild", keep=1)
+                qv_observe(b, qv, n, rnd)
+                b.drop(qv)
+        qv = b.conv(qb, "qbuild", keep=0)
+        qv_observe(b, qv, n, rnd)
+        c = b.conv(qv, "clone")
+        b.eq(qv, c)
+    return b
+
+
+# ------------------------------------------------------------------ C10 unchecked twins
+
+
+def legal_tree_calls(rnd, s, ty, fam, k=12):
+    """legal argument lists for the unchecked methods of a tree over s"""
+    vals = s.values()
+    n = len(vals)
+    out = {"get": ([], []), "rank": ([], []), "select": ([], [])}
+    if n == 0:
+        return out
+    pos = [p for p in position_args(n, extra=s.boundaries(), rnd=rnd, k=k, huge=()) if p <= n]
+    out["get"] = ([sym(0)] * len([p for p in pos if p < n]), [p for p in pos if p < n])
+    used = s.used_values()
+    mx = used[-1]
+    cands = [used[0], mx] + rnd.sample(used, min(4, len(used)))
+    if fam in ("QWT", "WT"):
+        absent = [v for v in range(0, min(mx, 40)) if v not in set(used)]
+        cands += absent[:2]
+    cs, as_ = [], []
+    for c in cands:
+        for p in pos:
+            cs.append(sym(c))
+            as_.append(p)
+    out["rank"] = (cs, as_)
+    cnt = {}
+    for v in vals:
+        cnt[v] = cnt.get(v, 0) + 1
+    cs, as_ = [], []
+    for c in set(cands):
+        if cnt.get(c, 0) > 0:
+            for kk in [x for x in occ_args(cnt[c], rnd=rnd, k=5, huge=()) if x < cnt[c]]:
+                cs.append(sym(c))
+                as_.append(kk)
+    out["select"] = (cs, as_)
+    return out
+
+
+def camp_c10(rnd, tier):
+    b = Beh()
+    types = rotate(UTYPES, rnd)
+    # trees
+    for kind in TREE_KINDS:
+        fam = "QWT" if kind in QUAD_PLAIN else "HQWT" if kind in QUAD_HUFF else kind
+        for rep in range(2 if tier == "quick" else 6):
+            ty = next(types)
+            shapes = huff_input_shapes(rnd, "quick", ty, binary=(kind == "HWT")) if "H" in kind[:2] else tree_input_shapes(rnd, "quick", ty)
+            for name, s in rnd.sample(shapes, min(len(shapes), 6 if tier == "quick" else 14)):
+                b.reset()
+                o = b.newt(kind, ty, rnd.choice(["new", "from_vec", "collect"]), s)
+                lc = legal_tree_calls(rnd, s, ty, fam)
+                b.uq(o, "get_unchecked", "get", *lc["get"])
+                b.uq(o, "rank_unchecked", "rank", *lc["rank"])
+                b.uq(o, "select_unchecked", "select", *lc["select"])
+                if kind not in ("WT", "HWT"):
+                    b.uq(o, "rank_prefetch_unchecked", "rank_prefetch", *lc["rank"])
+    # quad vectors
+    for name, s in quad_input_shapes(rnd, "quick"):
+        vals = s.values()
+        n = len(vals)
+        for kind in ("RSQ256", "RSQ512", "QV"):
+            b.reset()
+            o = b.newq(kind, "u8", "collect", s)
+            pos = [p for p in position_args(n, extra=s.boundaries(), rnd=rnd, k=12, huge=()) if p <= n]
+            gp = [p for p in pos if p < n]
+            b.uq(o, "get_unchecked", "get", [0] * len(gp), gp)
+            if kind == "QV":
+                continue
+            cs, as_ = [], []
+            for c in range(4):
+                for p in pos:
+                    cs.append(c)
+                    as_.append(p)
+            b.uq(o, "rank_unchecked", "rank", cs, as_)
+            cs, as_ = [], []
+            for c in range(4):
+                cnt = sum(1 for v in vals if v == c)
+                for kk in [x for x in occ_args(cnt, rnd=rnd, k=6, huge=()) if x < cnt]:
+                    cs.append(c)
+                    as_.append(kk)
+            b.uq(o, "select_unchecked", "select", cs, as_)
+            b.uq(o, "occs_unchecked", "occs", [0, 1, 2, 3], [0, 0, 0, 0])
+            b.uq(o, "occs_smaller_unchecked", "occs_smaller", [0, 1, 2, 3], [0, 0, 0, 0])
+    # bit structures
+    for name, s in bit_input_shapes(rnd, "quick"):
+        vals = s.values()
+        n = len(vals)
+        ones = sum(vals)
+        pos = [p for p in position_args(n, extra=s.boundaries(), rnd=rnd, k=12, huge=()) if p <= n]
+        gp = [p for p in pos if p < n]
+        for kind, path in (("BV", "bools"), ("BVM", "bools"), ("RSN", "new"), ("RSW", "new"), ("DA0", "new"), ("DA1", "new")):
+            b.reset()
+            o = b.newb(kind, path, s)
+            b.uq(o, "get_unchecked", "get", [], gp)
+            if kind in ("BV", "BVM"):
+                pairs = [pr for pr in get_bits_args(n, rnd) if pr[0] >= 0 and 1 <= pr[1] <= 64 and pr[0] + pr[1] <= n]
+                # BitVectorMut::get_bits refuses reads ending at the last bit (known finding K01): the
+                # relation checked == unchecked is only meaningful where the checked method answers
+                b.uq(o, "get_bits_unchecked", "get_bits", [], rnd.sample(pairs, min(len(pairs), 60)))
+            if kind in ("RSN", "RSW") and n > 0:
+                b.uq(o, "rank1_unchecked", "rank1", [], pos)
+                b.uq(o, "rank0_unchecked", "rank0", [], pos)
+            if kind in ("RSN", "RSW", "DA0", "DA1"):
+                b.uq(o, "select1_unchecked", "select1", [], [x for x in occ_args(ones, rnd=rnd, k=10, huge=()) if x < ones])
+            if kind in ("RSN", "RSW", "DA1"):
+                b.uq(o, "select0_unchecked", "select0", [], [x for x in occ_args(n - ones, rnd=rnd, k=10, huge=()) if x < n - ones])
+    return b
+
+
+# ------------------------------------------------------------------ C09 prefetch transparency
+
+
+def camp_c09(rnd, tier):
+    b = Beh()
+    types = rotate(UTYPES, rnd)
+    for kind in QUAD_PLAIN + QUAD_HUFF:
+        huff = kind in QUAD_HUFF
+        for rep in range(1 if tier == "quick" else 3):
+            ty = next(types)
+            shapes = huff_input_shapes(rnd, tier, ty) if huff else tree_input_shapes(rnd, tier, ty)
+            longs = [x for x in shapes if len(x[1]) > 4000]
+            smalls = [x for x in shapes if len(x[1]) <= 4000]
+            for name, s in longs + rnd.sample(smalls, min(len(smalls), 8 if tier == "quick" else 30)):
+                b.reset()
+                o = b.newt(kind, ty, rnd.choice(["new", "from_vec", "collect"]), s)
+                n = len(s)
+                pos = position_args(n, extra=s.boundaries(), rnd=rnd, k=40, huge=(-1, -2, -4))
+                cs = [sym(c) for c in query_symbols(rnd, s, ty, k=6)]
+                b.relm(o, "prefetch", "rank", "rank_prefetch", cs, pos)
+                # the absolute answers too, so that the cross-build comparison covers every query
+                b.meta(o)
+                b.qg(o, "get", [], pos)
+                b.qg(o, "select", cs[:4], [0, 1, 2, 50, -1])
+    # default-constructed trees
+    b.reset()
+    for kind in QUAD_PLAIN + QUAD_HUFF:
+        o = b.newt(kind, "u16", "default", Seqn.from_values([]))
+        b.relm(o, "prefetch", "rank", "rank_prefetch", [sym(0), sym(1)], [0, 1, -1])
+    return b
+
+
+# ------------------------------------------------------------------ C11 serde, C19 paths / copies
+
+
+def all_kind_objects(b, rnd, tier, small=False):
+    """builds one object of (almost) every serializable kind; returns list of (obj id, family, Seqn, ty, kind)"""
+    out = []
+    types = rotate(UTYPES, rnd)
+    for kind in TREE_KINDS:
+        ty = next(types)
+        huff = kind.startswith("H")
+        shapes = huff_input_shapes(rnd, "quick", ty, binary=(kind == "HWT")) if huff else tree_input_shapes(rnd, "quick", ty)
+        for name, s in rnd.sample(shapes, 3 if tier == "quick" else 8) + [("empty", Seqn.from_values([]))]:
+            o = b.newt(kind, ty, rnd.choice(["new", "from_vec", "collect"]), s)
+            out.append((o, "T", s, ty, kind))
+    for name, s in rnd.sample(quad_input_shapes(rnd, "quick"), 5) + [("empty", Seqn.from_values([]))]:
+        for kind in ("QV", "RSQ256", "RSQ512"):
+            o = b.newq(kind, "u16", "collect", s)
+            out.append((o, "Q", s, "u16", kind))
+    for name, s in rnd.sample(bit_input_shapes(rnd, "quick"), 5) + [("empty", Seqn.from_values([]))]:
+        for kind, path in (("BV", "bools"), ("BVM", "bools"), ("RSN", "new"), ("RSW", "new"), ("DA0", "new"), ("DA1", "new")):
+            o = b.newb(kind, path, s)
+            out.append((o, "B", s, "usize", kind))
+    return out
+
+
+def rel_all(b, oa, ob, rel, fam, s, ty, kind, rnd):
+    """the same grids on two objects"""
+    n = len(s)
+    pos = position_args(n, extra=s.boundaries(), rnd=rnd, k=12, huge=(-1,))
+    if fam == "T":
+        cs = [sym(c) for c in query_symbols(rnd, s, ty)]
+        b.relo(oa, ob, rel, "get", [], pos)
+        b.relo(oa, ob, rel, "rank", cs, pos)
+        b.relo(oa, ob, rel, "select", cs, [0, 1, 2, 3, 10, 100, 1000, -1])
+        if kind not in ("WT", "HWT"):
+            b.relo(oa, ob, rel, "rank_prefetch", cs, pos)
+    elif fam == "Q":
+        b.relo(oa, ob, rel, "get", [], pos)
+        if kind != "QV":
+            b.relo(oa, ob, rel, "rank", [0, 1, 2, 3, 4], pos)
+            b.relo(oa, ob, rel, "select", [0, 1, 2, 3, 4], [0, 1, 2, 10, 1000, 8192, -1])
+            b.relo(oa, ob, rel, "occs", [0, 1, 2, 3, 4], [0])
+            b.relo(oa, ob, rel, "occs_smaller", [0, 1, 2, 3, 4], [0])
+    else:
+        b.relo(oa, ob, rel, "get", [], pos)
+        ks = [0, 1, 2, 31, 32, 33, 1000, 1023, 1024, 8192, n // 2, n, -1]
+        if kind in ("BV", "BVM"):
+            b.relo(oa, ob, rel, "get_bits", [], [[p, L] for p in pos[:12] for L in (1, 7, 64)])
+            b.relo(oa, ob, rel, "get_word", [], list(range((n + 63) // 64))[:20])
+        if kind in ("RSN", "RSW"):
+            b.relo(oa, ob, rel, "rank1", [], pos)
+            b.relo(oa, ob, rel, "rank0", [], pos)
+        if kind in ("RSN", "RSW", "DA0", "DA1"):
+            b.relo(oa, ob, rel, "select1", [], ks)
+        if kind in ("RSN", "RSW", "DA1"):
+            b.relo(oa, ob, rel, "select0", [], ks)
+
+
+def camp_c11(rnd, tier):
+    b = Beh()
+    for rep in range(1 if tier == "quick" else 4):
+        b.reset()
+        for (o, fam, s, ty, kind) in all_kind_objects(b, rnd, tier):
+            d = b.conv(o, "serde")
+            b.eq(o, d)
+            b.meta(o)
+            b.meta(d)
+            rel_all(b, o, d, "serde", fam, s, ty, kind, rnd)
+            b.drop(d)
+            b.drop(o)
+    return b
+
+
+def wider_types(ty):
+    i = UTYPES.index(ty)
+    return [t for t in UTYPES[i + 1:] if not (ty == "u64" and t == "usize")]
+
+
+def camp_c19(rnd, tier):
+    b = Beh()
+    types = rotate(UTYPES, rnd)
+    for kind in TREE_KINDS:
+        huff = kind.startswith("H")
+        for rep in range(1 if tier == "quick" else 3):
+            ty = next(types)
+            shapes = huff_input_shapes(rnd, "quick", ty, binary=(kind == "HWT")) if huff else tree_input_shapes(rnd, "quick", ty)
+            for name, s in rnd.sample(shapes, 5 if tier == "quick" else 12):
+                b.reset()
+                objs = [b.newt(kind, ty, p, s) for p in ("new", "from_vec", "collect")]
+                for i in range(3):
+                    for j in range(i + 1, 3):
+                        b.eq(objs[i], objs[j])
+                        rel_all(b, objs[i], objs[j], "path", "T", s, ty, kind, rnd)
+                c = b.conv(objs[0], "clone")
+                b.eq(objs[0], c)
+                rel_all(b, objs[0], c, "clone", "T", s, ty, kind, rnd)
+                ci = b.conv(objs[1], "collect_iter")
+                rel_all(b, objs[1], ci, "path", "T", s, ty, kind, rnd)
+                # a different sequence never compares equal
+                vals = s.values()
+                if vals:
+                    v2 = list(vals)
+                    j = rnd.randrange(len(v2))
+                    v2[j] = v2[j] + 1 if v2[j] < tmax(ty) else v2[j] - 1
+                    d = b.newt(kind, ty, "from_vec", Seqn.from_values(v2))
+                    b.eq(objs[0], d)
+                    d2 = b.newt(kind, ty, "from_vec", Seqn.from_values(vals + [vals[0]]))
+                    b.eq(objs[0], d2)
+                    d3 = b.newt(kind, ty, "from_vec", Seqn.from_values(vals[:-1]))
+                    b.eq(objs[0], d3)
+                # the same numbers in a wider carrier
+                for wt in wider_types(ty)[:2 if tier == "quick" else 5]:
+                    w = b.newt(kind, wt, "from_vec", s)
+                    rel_all(b, objs[0], w, "carrier", "T", s, ty, kind, rnd)
+    # quad vectors: new / From<QVector> / collect
+    for name, s in rnd.sample(quad_input_shapes(rnd, "quick"), 6 if tier == "quick" else 12):
+        for kind in ("RSQ256", "RSQ512"):
+            b.reset()
+            objs = [b.newq(kind, ty, p, s) for p, ty in (("new", "u8"), ("from_qv", "u32"), ("collect", "i16"), ("new", "u128"))]
+            for i in range(len(objs)):
+                for j in range(i + 1, len(objs)):
+                    b.eq(objs[i], objs[j])
+                    rel_all(b, objs[i], objs[j], "path", "Q", s, "u8", kind, rnd)
+            c = b.conv(objs[0], "clone")
+            b.eq(objs[0], c)
+            vals = s.values()
+            if vals:
+                v2 = list(vals)
+                j = rnd.randrange(len(v2))
+                v2[j] = (v2[j] + 1) % 4
+                d = b.newq(kind, "u8", "new", Seqn.from_values(v2))
+                b.eq(objs[0], d)
+    # bit structures: From<BitVector> / new; bool- and position-based constructors
+    for name, s in rnd.sample(bit_input_shapes(rnd, "quick"), 6 if tier == "quick" else 12):
+        vals = s.values()
+        ends_with_one = bool(vals) and vals[-1] == 1
+        for kind, paths in (("RSN", ["new", "from"]), ("RSW", ["new", "from"]), ("DA0", ["new", "bools", "positions"]),
+                            ("DA1", ["new", "bools", "positions"]), ("BV", ["bools", "from_bvm", "positions"]), ("BVM", ["bools", "from_bv", "positions"])):
+            b.reset()
+            ps = [p for p in paths if p != "positions" or ends_with_one]
+            objs = [b.newb(kind, p, s, ty=rnd.choice(["usize", "u32", "u64", "i64"])) for p in ps]
+            for i in range(len(objs)):
+                for j in range(i + 1, len(objs)):
+                    b.eq(objs[i], objs[j])
+                    rel_all(b, objs[i], objs[j], "path", "B", s, "usize", kind, rnd)
+            c = b.conv(objs[0], "clone")
+            b.eq(objs[0], c)
+            if vals:
+                v2 = list(vals)
+                j = rnd.randrange(len(v2))
+                v2[j] ^= 1
+                d = b.newb(kind, ps[0], Seqn.from_values(v2))
+                b.eq(objs[0], d)
+    return b
